@@ -14,8 +14,10 @@ use crate::wire::{Icmpv4Packet, Icmpv4Repr, Ipv4Repr};
 #[cfg(feature = "proto-ipv6")]
 use crate::wire::{Icmpv6Packet, Icmpv6Repr, Ipv6Repr};
 use crate::wire::{IpAddress, IpListenEndpoint, IpProtocol, IpRepr};
-use crate::wire::{TcpPacket, TcpRepr};
-use crate::wire::{UdpPacket, UdpRepr};
+use crate::wire::TcpPacket;
+use crate::wire::UdpPacket;
+#[cfg(test)]
+use crate::wire::UdpRepr;
 
 /// Error returned by [`Socket::bind`]
 #[derive(Debug, PartialEq, Eq, Clone, Copy)]
@@ -428,7 +430,7 @@ impl<'a> Socket<'a> {
     #[inline]
     pub(crate) fn accepts_v4(
         &self,
-        cx: &mut Context,
+        _cx: &mut Context,
         ip_repr: &Ipv4Repr,
         icmp_repr: &Icmpv4Repr,
     ) -> bool {
@@ -439,19 +441,12 @@ impl<'a> Socket<'a> {
             // are bound to.
             (
                 &Endpoint::Udp(endpoint),
-                &Icmpv4Repr::DstUnreachable { data, header, .. }
-                | &Icmpv4Repr::TimeExceeded { data, header, .. },
+                &Icmpv4Repr::DstUnreachable { data, .. }
+                | &Icmpv4Repr::TimeExceeded { data, .. },
             ) if endpoint.addr.is_none() || endpoint.addr == Some(ip_repr.dst_addr.into()) => {
-                let packet = UdpPacket::new_unchecked(data);
-                match UdpRepr::parse(
-                    &packet,
-                    &header.src_addr.into(),
-                    &header.dst_addr.into(),
-                    &cx.checksum_caps(),
-                ) {
-                    Ok(repr) => endpoint.port == repr.src_port,
-                    Err(_) => false,
-                }
+                // An ICMP error only has to quote the first 8 octets of the datagram: the
+                // ports are there, a complete (length-checked, checksummed) datagram is not.
+                data.len() >= 8 && UdpPacket::new_unchecked(data).src_port() == endpoint.port
             }
             // If we are bound to ICMP errors associated to a TCP port, only
             // accept Destination Unreachable or Time Exceeded messages with
@@ -459,19 +454,11 @@ impl<'a> Socket<'a> {
             // are bound to.
             (
                 &Endpoint::Tcp(endpoint),
-                &Icmpv4Repr::DstUnreachable { data, header, .. }
-                | &Icmpv4Repr::TimeExceeded { data, header, .. },
+                &Icmpv4Repr::DstUnreachable { data, .. }
+                | &Icmpv4Repr::TimeExceeded { data, .. },
             ) if endpoint.addr.is_none() || endpoint.addr == Some(ip_repr.dst_addr.into()) => {
-                let packet = TcpPacket::new_unchecked(data);
-                match TcpRepr::parse(
-                    &packet,
-                    &header.src_addr.into(),
-                    &header.dst_addr.into(),
-                    &cx.checksum_caps(),
-                ) {
-                    Ok(repr) => endpoint.port == repr.src_port,
-                    Err(_) => false,
-                }
+                // See above: the quoted octets hold the ports (and the sequence number) only.
+                data.len() >= 8 && TcpPacket::new_unchecked(data).src_port() == endpoint.port
             }
             // If we are bound to a specific ICMP identifier value, only accept an
             // Echo Request/Reply with the identifier field matching the endpoint
@@ -490,7 +477,7 @@ impl<'a> Socket<'a> {
     #[inline]
     pub(crate) fn accepts_v6(
         &self,
-        cx: &mut Context,
+        _cx: &mut Context,
         ip_repr: &Ipv6Repr,
         icmp_repr: &Icmpv6Repr,
     ) -> bool {
@@ -501,19 +488,12 @@ impl<'a> Socket<'a> {
             // are bound to.
             (
                 &Endpoint::Udp(endpoint),
-                &Icmpv6Repr::DstUnreachable { data, header, .. }
-                | &Icmpv6Repr::TimeExceeded { data, header, .. },
+                &Icmpv6Repr::DstUnreachable { data, .. }
+                | &Icmpv6Repr::TimeExceeded { data, .. },
             ) if endpoint.addr.is_none() || endpoint.addr == Some(ip_repr.dst_addr.into()) => {
-                let packet = UdpPacket::new_unchecked(data);
-                match UdpRepr::parse(
-                    &packet,
-                    &header.src_addr.into(),
-                    &header.dst_addr.into(),
-                    &cx.checksum_caps(),
-                ) {
-                    Ok(repr) => endpoint.port == repr.src_port,
-                    Err(_) => false,
-                }
+                // An ICMP error only has to quote the first 8 octets of the datagram: the
+                // ports are there, a complete (length-checked, checksummed) datagram is not.
+                data.len() >= 8 && UdpPacket::new_unchecked(data).src_port() == endpoint.port
             }
             // If we are bound to ICMP errors associated to a TCP port, only
             // accept Destination Unreachable or Time Exceeded messages with
@@ -521,19 +501,11 @@ impl<'a> Socket<'a> {
             // are bound to.
             (
                 &Endpoint::Tcp(endpoint),
-                &Icmpv6Repr::DstUnreachable { data, header, .. }
-                | &Icmpv6Repr::TimeExceeded { data, header, .. },
+                &Icmpv6Repr::DstUnreachable { data, .. }
+                | &Icmpv6Repr::TimeExceeded { data, .. },
             ) if endpoint.addr.is_none() || endpoint.addr == Some(ip_repr.dst_addr.into()) => {
-                let packet = TcpPacket::new_unchecked(data);
-                match TcpRepr::parse(
-                    &packet,
-                    &header.src_addr.into(),
-                    &header.dst_addr.into(),
-                    &cx.checksum_caps(),
-                ) {
-                    Ok(repr) => endpoint.port == repr.src_port,
-                    Err(_) => false,
-                }
+                // See above: the quoted octets hold the ports (and the sequence number) only.
+                data.len() >= 8 && TcpPacket::new_unchecked(data).src_port() == endpoint.port
             }
             // If we are bound to a specific ICMP identifier value, only accept an
             // Echo Request/Reply with the identifier field matching the endpoint
